@@ -687,7 +687,7 @@ pub fn array_slice(
         .ok_or_else(|| JsError::type_error("Not an array"))? as i64;
 
     let start_arg = args.first().map(|v| v.to_number() as i64).unwrap_or(0);
-    let end_arg = args.get(1).map(|v| v.to_number() as i64).unwrap_or(length);
+    let end_arg = super::given(args, 1).map(|v| v.to_number() as i64).unwrap_or(length);
 
     let start = if start_arg < 0 {
         (length + start_arg).max(0)
@@ -1117,7 +1117,9 @@ pub fn array_fill(
 
     let value = args.first().cloned().unwrap_or(JsValue::Undefined);
 
+    let end_given = super::given(args, 2).is_some();
     let args = with_numeric_args(args, 1..3);
+    let args = if end_given { &args[..] } else { &args[..args.len().min(2)] };
     let mut arr_ref = arr.borrow_mut();
     let elements = arr_ref
         .array_elements_mut()
@@ -1185,7 +1187,9 @@ pub fn array_copy_within(
         ));
     };
 
+    let end_given = super::given(args, 2).is_some();
     let args = with_numeric_args(args, 0..3);
+    let args = if end_given { &args[..] } else { &args[..args.len().min(2)] };
     let mut arr_ref = arr.borrow_mut();
     let elements = arr_ref
         .array_elements_mut()
@@ -1635,7 +1639,7 @@ pub fn array_flat(
         ));
     };
 
-    let depth = args.first().map(|v| v.to_number() as i32).unwrap_or(1);
+    let depth = super::given(args, 0).map(|v| v.to_number() as i32).unwrap_or(1);
 
     fn flatten(arr: &JsObjectRef, depth: i32) -> Vec<JsValue> {
         let elements: Vec<JsValue> = {
